@@ -77,7 +77,7 @@ class Checked:
         self.exc = None
 
 
-def check_call(con, fn, args=(), kwargs=None, self_obj=None):
+def check_call(con, fn, args=(), kwargs=None, self_obj=None, reraise=False):
     kwargs = dict(kwargs or {})
     out = Checked()
     sig = inspect.signature(fn)
@@ -125,12 +125,18 @@ def check_call(con, fn, args=(), kwargs=None, self_obj=None):
                 when_vals[en] = bool(eval(cl.code, {**g, **env}))
             except Exception as e:  # noqa
                 when_vals[en] = None
+    scope = _EventScope(con, fn, g)
     try:
-        if self_obj is not None:
-            out.result = fn(self_obj, *args, **kwargs)
-        else:
-            out.result = fn(*args, **kwargs)
+        with scope:
+            if self_obj is not None:
+                out.result = fn(self_obj, *args, **kwargs)
+            else:
+                out.result = fn(*args, **kwargs)
+        for kind, text, detail in scope.bad:
+            (out.errors if kind == 'error' else out.violations).append((kind, text, detail))
     except Exception as e:  # noqa
+        for kind, text, detail in scope.bad:
+            (out.errors if kind == 'error' else out.violations).append((kind, text, detail))
         out.exc = e
         name = type(e).__name__
         matched = None
@@ -268,4 +274,209 @@ def _describe(ex):
             out[k] = {'nodes': [[n, dict(d)] for n, d in v.nodes(data=True)], 'edges': [[a, b, dict(d)] for a, b, d in v.edges(data=True)]}
         else:
             out[k] = v
+    return out
+
+
+# ================================================================================================ installation
+VIOLATIONS = []          # drained by the bounded-tier runner after every case
+CALLS = {}
+STATS = {}               # target -> number of monitored evaluations
+_INSTALLED = []
+_ACTIVE = set()          # re-entrancy guard: (target) currently being checked
+
+
+class _EventScope:
+    """Native evaluation of the `on_call` ghost code of a contract while its function runs."""
+
+    def __init__(self, con, fn, g):
+        self.con = con
+        self.code = getattr(fn, '__code__', None)
+        self.g = g
+        self.ghosts = {}
+        self.patches = []
+        self.bad = []
+
+    def __enter__(self):
+        if not self.con.on_call:
+            return self
+        for name, (ty, init) in self.con.ghosts.items():
+            try:
+                self.ghosts[name] = eval(init, dict(self.g))
+            except Exception:
+                self.ghosts[name] = None
+        import networkx as nx
+        mod = importlib.import_module(self.con.module)
+        for label in self.con.on_call:
+            if hasattr(nx.Graph, label) and not hasattr(mod, label):
+                orig = getattr(nx.Graph, label)
+                setattr(nx.Graph, label, self._wrap(orig, label, method=True))
+                self.patches.append((nx.Graph, label, orig))
+            elif hasattr(mod, label):
+                orig = getattr(mod, label)
+                setattr(mod, label, self._wrap(orig, label, method=False))
+                self.patches.append((mod, label, orig))
+        return self
+
+    def __exit__(self, *a):
+        for obj, name, orig in reversed(self.patches):
+            setattr(obj, name, orig)
+        return False
+
+    def _wrap(self, orig, label, method):
+        scope = self
+
+        def wrapper(*args, **kwargs):
+            frame = sys._getframe(1)
+            res = orig(*args, **kwargs)
+            if frame.f_code is not scope.code:
+                return res            # event raised from somewhere else than the function under contract
+            env = dict(scope.g)
+            env.update(frame.f_locals)
+            env.update(scope.ghosts)
+            env['result'] = res
+            pos = args[1:] if method else args
+            for i, a in enumerate(pos):
+                env['arg%d' % i] = a
+            for k, v in kwargs.items():
+                env['kw_' + k] = v
+            if not method:
+                try:
+                    ba = inspect.signature(getattr(orig, '__wrapped_by_monitor__', orig)).bind(*args, **kwargs)
+                    ba.apply_defaults()
+                    for k, v in ba.arguments.items():
+                        env['arg_' + k] = v
+                except Exception:
+                    pass
+            for item in scope.con.on_call[label]:
+                item = item.strip()
+                try:
+                    if item.startswith('assert '):
+                        cl = Clause(item[len('assert '):])
+                        if cl.smt_only or cl.olds:
+                            continue
+                        if not eval(cl.code, env):
+                            scope.bad.append(('ghost', item[len('assert '):], 'assertion at %s event is false' % label))
+                    else:
+                        tgt, expr = item.split('=', 1)
+                        val = eval(compile(expr.strip(), '<ghost>', 'eval'), env)
+                        scope.ghosts[tgt.strip()] = copy.deepcopy(val) if isinstance(val, (list, dict)) else val
+                        env[tgt.strip()] = scope.ghosts[tgt.strip()]
+                except Exception as e:  # noqa: contract text could not be evaluated: never a verdict
+                    scope.bad.append(('error', item, '%s: %s' % (type(e).__name__, e)))
+            return res
+        return wrapper
+
+
+def _select_contract(cons, bound):
+    """Pick the variant whose declared parameter types fit the actual arguments."""
+    if len(cons) == 1:
+        return cons[0]
+    for con in cons:
+        ok = True
+        for p, t in con.types.items():
+            v = bound.get(p)
+            if t.startswith('Dict') and not isinstance(v, dict):
+                ok = False
+            if t.startswith('List') and not isinstance(v, (list, tuple)):
+                ok = False
+        if ok:
+            return con
+    return cons[0]
+
+
+def _make_monitored(fn, cons, is_method):
+    target0 = cons[0].target
+
+    def monitored(*args, **kwargs):
+        target = target0
+        # rate limit first (cheap): the first 40 calls of each function in a worker are checked, then every 40th
+        n_calls = CALLS.get(target, 0) + 1
+        CALLS[target] = n_calls
+        if (n_calls > 40 and n_calls % 40) or target in _ACTIVE:
+            return fn(*args, **kwargs)
+        try:
+            sig = inspect.signature(fn)
+            ba = sig.bind(*args, **kwargs)
+            ba.apply_defaults()
+        except TypeError:
+            return fn(*args, **kwargs)
+        con = _select_contract(cons, ba.arguments)
+        _ACTIVE.add(target)
+        try:
+            STATS[target] = STATS.get(target, 0) + 1
+            res = check_call(con, fn, args=args, kwargs=kwargs, reraise=True)
+        finally:
+            _ACTIVE.discard(target)
+        if not res.pre_ok:
+            # outside the contract's precondition nothing is checked, but the real function must of course still run
+            res.exc = None
+            try:
+                res.result = fn(*args, **kwargs)
+            except Exception as e:  # noqa
+                res.exc = e
+            if res.violations:
+                VIOLATIONS.append({'target': target, 'kind': 'requires', 'clause': res.violations[0][1],
+                                   'detail': 'precondition of a function under contract is false at a call made by the pipeline'})
+            elif res.errors:
+                VIOLATIONS.append({'target': target, 'kind': 'requires', 'clause': res.errors[0][1], 'detail': res.errors[0][2]})
+        else:
+            for kind, text, detail in res.violations:
+                VIOLATIONS.append({'target': target, 'kind': kind, 'clause': text, 'detail': detail})
+        if res.exc is not None:
+            raise res.exc
+        return res.result
+    monitored.__wrapped_by_monitor__ = fn
+    monitored.__name__ = getattr(fn, '__name__', 'monitored')
+    monitored.__doc__ = getattr(fn, '__doc__', None)
+    return monitored
+
+
+def install_all(only=None):
+    """Wrap every function under contract (module attribute, class attribute and every alias created by
+    `from x import f` inside the cgsmiles package) with the run-time contract check."""
+    if _INSTALLED:
+        return
+    from . import run as pyrun
+    pyrun.load_contracts()
+    by_target = {}
+    for (tgt, var), con in C.REGISTRY.items():
+        if con.trusted or (only and tgt not in only):
+            continue
+        by_target.setdefault(tgt, []).append(con)
+    import pkgutil
+    import cgsmiles
+    mods = []
+    for m in pkgutil.iter_modules(cgsmiles.__path__):
+        if m.name in ('tests',):
+            continue
+        try:
+            mods.append(importlib.import_module('cgsmiles.' + m.name))
+        except Exception:
+            pass
+    for tgt, cons in by_target.items():
+        modname, qual = tgt.split(':')
+        try:
+            mod = importlib.import_module(modname)
+            parts = qual.split('.')
+            owner = mod
+            for p in parts[:-1]:
+                owner = getattr(owner, p)
+            fn = getattr(owner, parts[-1])
+        except Exception:
+            continue
+        raw = fn.__func__ if isinstance(fn, (staticmethod, classmethod)) else fn
+        wrapped = _make_monitored(raw, cons, len(parts) > 1)
+        setattr(owner, parts[-1], wrapped)
+        _INSTALLED.append((owner, parts[-1], fn))
+        if len(parts) == 1:
+            for other in mods + [cgsmiles]:
+                for name, val in list(vars(other).items()):
+                    if val is raw and other is not owner:
+                        setattr(other, name, wrapped)
+                        _INSTALLED.append((other, name, raw))
+
+
+def drain():
+    out = list(VIOLATIONS)
+    del VIOLATIONS[:]
     return out
